@@ -88,6 +88,311 @@ def buildTable (slow : UInt64 → UInt64) (mask magic : UInt64) (bits : Nat) : N
     let blockers := blockersFromIndex b mask
     buildTable slow mask magic bits n (b+1) (tset t (magicIndex blockers magic bits) (slow blockers))
 
+/-! ## Compiled fast paths, part 1 (`@[csimp]`)
+
+Nothing in this section changes a definition: each `@[csimp]` theorem proves that a model function
+is EQUAL to a faster implementation, and only the code generator uses it.  The kernel
+(`decide +kernel` in `Props/C09`) and every proof keep seeing the original definitions.
+
+The section stands here (and not at the end of the file) because `rookTables`/`bishopTables` below
+are evaluated when the program starts: to make that fast, the proved-equal `buildTable` (an `Array`
+filled by the same ascending loop, then packed into the big `Nat` by divide and conquer) has to be
+known to the code generator before `rookTableOf` is compiled. -/
+namespace Fast
+
+/-- all 8 × 64 rays, index `dir * 64 + sq` -/
+def rayTab : Array UInt64 :=
+  (Array.range 512).map fun i =>
+    rayFrom (dirOffsets.getD (i / 64) (0, 0)).1 (dirOffsets.getD (i / 64) (0, 0)).2 8 (i % 64)
+
+def rayFast (d : Dir) (sq : Nat) : UInt64 :=
+  if h : d.idx * 64 + sq < rayTab.size ∧ sq < 64 then rayTab[d.idx * 64 + sq] else ray d sq
+
+@[csimp] theorem ray_eq : @ray = @rayFast := by
+  funext d sq
+  unfold rayFast
+  split
+  · rename_i h
+    have h1 : (d.idx * 64 + sq) / 64 = d.idx := by omega
+    have h2 : (d.idx * 64 + sq) % 64 = sq := by omega
+    simp only [rayTab, Array.getElem_map, Array.getElem_range, h1, h2]
+    rfl
+  · rfl
+
+/-! ### re-compilation of the callers defined above the fast paths
+
+`cutRay`, `rookSlow`, … were compiled before the `@[csimp]` lemmas existed; these literal copies
+(equal by `rfl`) are compiled after them and therefore call the fast versions. -/
+
+def cutRayFast (d : Dir) (up : Bool) (sq : Nat) (blockers : UInt64) (attacks : UInt64) : UInt64 :=
+  let r := ray d sq
+  let attacks := attacks ||| r
+  match (if up then firstOne (r &&& blockers) else lastOne (r &&& blockers)) with
+  | some b => attacks &&& ~~~(ray d b)
+  | Option.none => attacks
+@[csimp] theorem cutRay_eq : @cutRay = @cutRayFast := rfl
+
+def rookSlowFast (sq : Nat) (blockers : UInt64) : UInt64 :=
+  cutRay .e true sq blockers (cutRay .w false sq blockers (cutRay .s false sq blockers (cutRay .n true sq blockers 0)))
+@[csimp] theorem rookSlow_eq : @rookSlow = @rookSlowFast := rfl
+
+def bishopSlowFast (sq : Nat) (blockers : UInt64) : UInt64 :=
+  cutRay .se false sq blockers (cutRay .ne true sq blockers (cutRay .sw false sq blockers (cutRay .nw true sq blockers 0)))
+@[csimp] theorem bishopSlow_eq : @bishopSlow = @bishopSlowFast := rfl
+
+/-! ### small per-square tables -/
+
+/-- a 64-entry table of a function of the square -/
+def sqTab (f : Nat → UInt64) : Array UInt64 := (Array.range 64).map f
+
+@[inline] def sqTabGet (f : Nat → UInt64) (tab : Array UInt64) (sq : Nat) : UInt64 :=
+  if h : sq < tab.size then tab[sq] else f sq
+
+theorem sqTabGet_eq (f : Nat → UInt64) (sq : Nat) : sqTabGet f (sqTab f) sq = f sq := by
+  unfold sqTabGet sqTab
+  split
+  · simp
+  · rfl
+
+def rookMaskTab : Array UInt64 := sqTab rookMask
+def rookMaskFast (sq : Nat) : UInt64 := sqTabGet rookMask rookMaskTab sq
+@[csimp] theorem rookMask_eq : @rookMask = @rookMaskFast := by
+  funext sq; exact (sqTabGet_eq rookMask sq).symm
+
+def bishopMaskTab : Array UInt64 := sqTab bishopMask
+def bishopMaskFast (sq : Nat) : UInt64 := sqTabGet bishopMask bishopMaskTab sq
+@[csimp] theorem bishopMask_eq : @bishopMask = @bishopMaskFast := by
+  funext sq; exact (sqTabGet_eq bishopMask sq).symm
+
+
+/-! ### `tget`/`tset` algebra -/
+
+theorem tget_testBit (t i k : Nat) (hk : k < 64) : (tget t i).toNat.testBit k = t.testBit (64 * i + k) := by
+  unfold tget
+  simp only [Nat.toUInt64, UInt64.toNat_ofNat', Nat.testBit_mod_two_pow, Nat.testBit_shiftRight, hk, decide_true, Bool.true_and]
+
+theorem testBit_ge64 (x : UInt64) {k : Nat} (hk : 64 ≤ k) : x.toNat.testBit k = false :=
+  Nat.testBit_lt_two_pow (Nat.lt_of_lt_of_le x.toNat_lt (Nat.pow_le_pow_right (by decide) hk))
+
+theorem tget_tset (t i j : Nat) (v : UInt64) : tget (tset t i v) j = if j = i then v else tget t j := by
+  apply UInt64.toNat_inj.1
+  apply Nat.eq_of_testBit_eq
+  intro k
+  by_cases hk : k < 64
+  · rw [tget_testBit _ _ _ hk]
+    unfold tset
+    simp only [Nat.testBit_or, Nat.testBit_xor, Nat.testBit_shiftLeft]
+    by_cases hji : j = i
+    · subst hji
+      have h1 : 64 * j + k ≥ 64 * j := by omega
+      have h2 : 64 * j + k - 64 * j = k := by omega
+      simp only [h1, h2, decide_true, Bool.true_and, if_true, tget_testBit _ _ _ hk]
+      simp
+    · simp only [hji, if_false, tget_testBit _ _ _ hk]
+      by_cases hge : 64 * j + k ≥ 64 * i
+      · have hbig : 64 * j + k - 64 * i ≥ 64 := by omega
+        simp [testBit_ge64 _ hbig]
+      · simp [hge]
+  · rw [testBit_ge64 _ (by omega), testBit_ge64 _ (by omega)]
+
+/-- two tables below `2^(64 N)` with the same `N` slots are equal -/
+theorem eq_of_tget {x y N : Nat} (hx : x < 2 ^ (64 * N)) (hy : y < 2 ^ (64 * N))
+    (h : ∀ i, i < N → tget x i = tget y i) : x = y := by
+  apply Nat.eq_of_testBit_eq
+  intro p
+  by_cases hp : p < 64 * N
+  · have e : p = 64 * (p / 64) + p % 64 := by omega
+    have hk : p % 64 < 64 := by omega
+    rw [e, ← tget_testBit _ _ _ hk, ← tget_testBit _ _ _ hk, h _ (by omega)]
+  · have hp' : 2 ^ (64 * N) ≤ 2 ^ p := Nat.pow_le_pow_right (by decide) (by omega)
+    rw [Nat.testBit_lt_two_pow (Nat.lt_of_lt_of_le hx hp'), Nat.testBit_lt_two_pow (Nat.lt_of_lt_of_le hy hp')]
+
+theorem shl_lt {w i N : Nat} (hw : w < 2 ^ 64) (hi : i < N) : w <<< (64 * i) < 2 ^ (64 * N) := by
+  rw [Nat.shiftLeft_eq]
+  have h1 : w * 2 ^ (64 * i) < 2 ^ 64 * 2 ^ (64 * i) := Nat.mul_lt_mul_of_pos_right hw (Nat.pow_pos (by decide))
+  rw [← Nat.pow_add] at h1
+  exact Nat.lt_of_lt_of_le h1 (Nat.pow_le_pow_right (by decide) (by omega))
+
+theorem tset_lt {t i N : Nat} (v : UInt64) (ht : t < 2 ^ (64 * N)) (hi : i < N) : tset t i v < 2 ^ (64 * N) := by
+  unfold tset
+  exact Nat.or_lt_two_pow (Nat.xor_lt_two_pow ht (shl_lt (tget t i).toNat_lt hi)) (shl_lt v.toNat_lt hi)
+
+theorem magicIndex_lt (occ magic : UInt64) {bits : Nat} (h0 : 0 < bits) (h64 : bits ≤ 64) :
+    magicIndex occ magic bits < 2 ^ bits := by
+  unfold magicIndex
+  have h1 : ((64 - bits).toUInt64).toNat % 64 = 64 - bits := by
+    simp [Nat.toUInt64, UInt64.toNat_ofNat']; omega
+  rw [UInt64.toNat_shiftRight, h1, Nat.shiftRight_eq_div_pow]
+  apply Nat.div_lt_of_lt_mul
+  rw [← Nat.pow_add, show 64 - bits + bits = 64 by omega]
+  exact (occ * magic).toNat_lt
+
+/-! ### divide-and-conquer packing of an array into a table -/
+
+/-- slots `lo .. lo+n-1` of `a` as a table -/
+def packRange (a : Array UInt64) (lo n : Nat) : Nat :=
+  if n = 0 then 0
+  else if n = 1 then (a.getD lo 0).toNat
+  else packRange a lo (n / 2) ||| (packRange a (lo + n / 2) (n - n / 2) <<< (64 * (n / 2)))
+termination_by n
+decreasing_by all_goals omega
+
+theorem packRange_lt (a : Array UInt64) (lo n : Nat) : packRange a lo n < 2 ^ (64 * n) := by
+  induction n using Nat.strongRecOn generalizing lo with
+  | _ n ih =>
+    rw [packRange]
+    split
+    · exact Nat.pow_pos (by decide)
+    · split
+      · rename_i h1; subst h1; exact (a.getD lo 0).toNat_lt
+      · have a1 := ih (n / 2) (by omega) lo
+        have a2 := ih (n - n / 2) (by omega) (lo + n / 2)
+        apply Nat.or_lt_two_pow
+        · exact Nat.lt_of_lt_of_le a1 (Nat.pow_le_pow_right (by decide) (by omega))
+        · rw [Nat.shiftLeft_eq]
+          have : packRange a (lo + n / 2) (n - n / 2) * 2 ^ (64 * (n / 2)) < 2 ^ (64 * (n - n / 2)) * 2 ^ (64 * (n / 2)) :=
+            Nat.mul_lt_mul_of_pos_right a2 (Nat.pow_pos (by decide))
+          rw [← Nat.pow_add] at this
+          exact Nat.lt_of_lt_of_le this (Nat.pow_le_pow_right (by decide) (by omega))
+
+theorem tget_or_shl {x : Nat} (y h i : Nat) (hx : x < 2 ^ (64 * h)) :
+    tget (x ||| (y <<< (64 * h))) i = if i < h then tget x i else tget y (i - h) := by
+  apply UInt64.toNat_inj.1
+  apply Nat.eq_of_testBit_eq
+  intro k
+  by_cases hk : k < 64
+  · rw [tget_testBit _ _ _ hk, Nat.testBit_or, Nat.testBit_shiftLeft]
+    by_cases hi : i < h
+    · have : ¬ (64 * i + k ≥ 64 * h) := by omega
+      simp [hi, this, tget_testBit _ _ _ hk]
+    · have h1 : 64 * i + k ≥ 64 * h := by omega
+      have h2 : 64 * i + k - 64 * h = 64 * (i - h) + k := by omega
+      have h3 : x.testBit (64 * i + k) = false :=
+        Nat.testBit_lt_two_pow (Nat.lt_of_lt_of_le hx (Nat.pow_le_pow_right (by decide) (by omega)))
+      simp [hi, h1, h2, h3, tget_testBit _ _ _ hk]
+  · split <;> rw [testBit_ge64 _ (by omega), testBit_ge64 _ (by omega)]
+
+theorem tget_packRange (a : Array UInt64) (lo n i : Nat) (hi : i < n) :
+    tget (packRange a lo n) i = a.getD (lo + i) 0 := by
+  induction n using Nat.strongRecOn generalizing lo i with
+  | _ n ih =>
+    rw [packRange]
+    split
+    · omega
+    · split
+      · rename_i h1; subst h1
+        have : i = 0 := by omega
+        subst this
+        apply UInt64.toNat_inj.1
+        simp [tget, Nat.toUInt64]
+      · rw [tget_or_shl _ _ _ (packRange_lt a lo (n / 2))]
+        split
+        · exact ih (n / 2) (by omega) lo i (by omega)
+        · rw [ih (n - n / 2) (by omega) (lo + n / 2) (i - n / 2) (by omega)]
+          congr 1; omega
+
+/-! ### building the table as an array -/
+
+/-- `compute_blockers_from_index` over the ascending list of mask bits -/
+def depositL (idx : Nat) : List Nat → UInt64
+  | [] => 0
+  | b :: rest => (if idx % 2 = 1 then bit b else 0) ||| depositL (idx / 2) rest
+
+theorem deposit_eq_depositL (mask : UInt64) : ∀ fuel idx b,
+    deposit idx mask fuel b = depositL idx ((List.range' b fuel).filter (test mask)) := by
+  intro fuel
+  induction fuel with
+  | zero => intro idx b; simp [deposit, depositL]
+  | succ f ih =>
+    intro idx b
+    rw [deposit, List.range'_succ, List.filter_cons]
+    by_cases hm : test mask b = true
+    · rw [if_pos hm, if_pos hm, depositL, ih]
+    · rw [if_neg hm, if_neg hm, ih]
+
+theorem blockersFromIndex_eq_depositL (b : Nat) (mask : UInt64) :
+    blockersFromIndex b mask = depositL b (bitsOf mask) := by
+  rw [blockersFromIndex, deposit_eq_depositL, bitsOf, List.range_eq_range']
+
+/-- `buildTable` on an array instead of a big `Nat`, with the mask bits listed once (writes outside
+the array are dropped) -/
+def buildArr (slow : UInt64 → UInt64) (mbits : List Nat) (magic : UInt64) (bits : Nat) :
+    Nat → Nat → Array UInt64 → Array UInt64
+  | 0, _, a => a
+  | n+1, b, a =>
+    let blockers := depositL b mbits
+    buildArr slow mbits magic bits n (b+1) (a.setIfInBounds (magicIndex blockers magic bits) (slow blockers))
+
+theorem buildArr_size (slow : UInt64 → UInt64) (mbits : List Nat) (magic : UInt64) (bits n b : Nat) (a : Array UInt64) :
+    (buildArr slow mbits magic bits n b a).size = a.size := by
+  induction n generalizing b a with
+  | zero => rfl
+  | succ n ih => rw [buildArr, ih]; simp
+
+/-- `a` holds the low slots of `t` -/
+def Rep (t : Nat) (a : Array UInt64) : Prop := ∀ i (h : i < a.size), a[i] = tget t i
+
+theorem rep_zero (n : Nat) : Rep 0 (Array.replicate n 0) := by
+  intro i h
+  simp [tget, Nat.toUInt64]
+
+theorem rep_set {t : Nat} {a : Array UInt64} (h : Rep t a) (k : Nat) (v : UInt64) :
+    Rep (tset t k v) (a.setIfInBounds k v) := by
+  intro i hi
+  rw [tget_tset]
+  have hi' : i < a.size := by simpa using hi
+  by_cases hik : i = k
+  · subst hik; simp
+  · rw [if_neg hik, Array.getElem_setIfInBounds_ne (by simpa using hi) (fun e => hik e.symm)]
+    exact h i hi'
+
+theorem rep_build (slow : UInt64 → UInt64) (mask magic : UInt64) (bits n b : Nat) (t : Nat) (a : Array UInt64)
+    (h : Rep t a) : Rep (buildTable slow mask magic bits n b t) (buildArr slow (bitsOf mask) magic bits n b a) := by
+  induction n generalizing b t a with
+  | zero => exact h
+  | succ n ih =>
+    rw [buildTable, buildArr]
+    simp only [blockersFromIndex_eq_depositL]
+    exact ih _ _ _ (rep_set h _ _)
+
+theorem buildTable_lt (slow : UInt64 → UInt64) (mask magic : UInt64) {bits : Nat} (h0 : 0 < bits) (h64 : bits ≤ 64)
+    (n b t : Nat) (ht : t < 2 ^ (64 * 2 ^ bits)) : buildTable slow mask magic bits n b t < 2 ^ (64 * 2 ^ bits) := by
+  induction n generalizing b t with
+  | zero => exact ht
+  | succ n ih => exact ih _ _ (tset_lt _ ht (magicIndex_lt _ _ h0 h64))
+
+def arrOf (slow : UInt64 → UInt64) (mask magic : UInt64) (bits n b : Nat) : Array UInt64 :=
+  buildArr slow (bitsOf mask) magic bits n b (Array.replicate (2 ^ bits) 0)
+
+theorem rep_arrOf (slow : UInt64 → UInt64) (mask magic : UInt64) (bits n b : Nat) :
+    Rep (buildTable slow mask magic bits n b 0) (arrOf slow mask magic bits n b) :=
+  rep_build _ _ _ _ _ _ _ _ (rep_zero _)
+
+/-- `buildTable` through an array, packed at the end (when started from the empty table) -/
+def buildTableFast (slow : UInt64 → UInt64) (mask magic : UInt64) (bits n b t : Nat) : Nat :=
+  if t = 0 ∧ 0 < bits ∧ bits ≤ 64 then packRange (arrOf slow mask magic bits n b) 0 (2 ^ bits)
+  else buildTable slow mask magic bits n b t
+
+@[csimp] theorem buildTable_eq : @buildTable = @buildTableFast := by
+  funext slow mask magic bits n b t
+  unfold buildTableFast
+  split
+  · rename_i h
+    obtain ⟨ht, h0, h64⟩ := h
+    subst ht
+    have hsz : (arrOf slow mask magic bits n b).size = 2 ^ bits := by
+      unfold arrOf; rw [buildArr_size]; simp
+    apply eq_of_tget (buildTable_lt slow mask magic h0 h64 n b 0 (Nat.pow_pos (by decide))) (packRange_lt _ _ _)
+    intro i hi
+    rw [tget_packRange _ _ _ _ hi, Nat.zero_add]
+    have := rep_arrOf slow mask magic bits n b i (by omega)
+    rw [← this, Array.getD_eq_getD_getElem?]
+    simp [hsz, hi]
+  · rfl
+
+
+end Fast
+
 def rookTableOf (sq : Nat) (magic : UInt64) (bits : Nat) : Nat :=
   buildTable (rookSlow sq) (rookMask sq) magic bits (2 ^ bits) 0 0
 def bishopTableOf (sq : Nat) (magic : UInt64) (bits : Nat) : Nat :=
@@ -134,3 +439,105 @@ def attacksOf (c : Color) (p : Piece) (sq : Nat) (occ : UInt64) : UInt64 :=
   | .king => kingAttacks sq
 
 end Wee
+
+/-! ## Compiled fast paths, part 2 (`@[csimp]`)
+
+As in part 1, nothing below changes a definition.  Leaper attacks become 64-entry tables and the
+magic look-ups index an `Array UInt64` per square (built by the same loop as the big `Nat`, see
+`Fast.rep_arrOf`) instead of shifting a 32 KB `Nat`. -/
+namespace Wee.Fast
+open Wee Gen
+
+def knightTab : Array UInt64 := sqTab knightAttacks
+def knightAttacksFast (sq : Nat) : UInt64 := sqTabGet knightAttacks knightTab sq
+@[csimp] theorem knightAttacks_eq : @knightAttacks = @knightAttacksFast := by
+  funext sq; exact (sqTabGet_eq knightAttacks sq).symm
+
+def kingTab : Array UInt64 := sqTab kingAttacks
+def kingAttacksFast (sq : Nat) : UInt64 := sqTabGet kingAttacks kingTab sq
+@[csimp] theorem kingAttacks_eq : @kingAttacks = @kingAttacksFast := by
+  funext sq; exact (sqTabGet_eq kingAttacks sq).symm
+
+def pawnTabW : Array UInt64 := sqTab (pawnAttacks .white)
+def pawnTabB : Array UInt64 := sqTab (pawnAttacks .black)
+def pawnAttacksFast (c : Color) (sq : Nat) : UInt64 :=
+  match c with
+  | .white => sqTabGet (pawnAttacks .white) pawnTabW sq
+  | .black => sqTabGet (pawnAttacks .black) pawnTabB sq
+@[csimp] theorem pawnAttacks_eq : @pawnAttacks = @pawnAttacksFast := by
+  funext c sq; cases c
+  · exact (sqTabGet_eq (pawnAttacks .white) sq).symm
+  · exact (sqTabGet_eq (pawnAttacks .black) sq).symm
+
+/-! ### magic look-ups in arrays -/
+
+def rookArrs : Array (Array UInt64) :=
+  (Array.range 64).map fun sq =>
+    arrOf (rookSlow sq) (rookMask sq) (rookMagics.getD sq 0) (rookBitsTab.getD sq 0) (2 ^ rookBitsTab.getD sq 0) 0
+def bishopArrs : Array (Array UInt64) :=
+  (Array.range 64).map fun sq =>
+    arrOf (bishopSlow sq) (bishopMask sq) (bishopMagics.getD sq 0) (bishopBitsTab.getD sq 0) (2 ^ bishopBitsTab.getD sq 0) 0
+
+@[inline] def lookupFast (arrs : Array (Array UInt64)) (tables : Array Nat) (sq i : Nat) : UInt64 :=
+  if h : sq < arrs.size then
+    let a := arrs[sq]
+    if h' : i < a.size then a[i] else tget (tables.getD sq 0) i
+  else tget (tables.getD sq 0) i
+
+def rookAttacksFast (sq : Nat) (occ : UInt64) : UInt64 :=
+  lookupFast rookArrs rookTables sq (magicIndex (occ &&& rookMask sq) (rookMagics.getD sq 0) (rookBitsTab.getD sq 0))
+def bishopAttacksFast (sq : Nat) (occ : UInt64) : UInt64 :=
+  lookupFast bishopArrs bishopTables sq (magicIndex (occ &&& bishopMask sq) (bishopMagics.getD sq 0) (bishopBitsTab.getD sq 0))
+
+theorem lookupFast_eq (arrs : Array (Array UInt64)) (tables : Array Nat) (sq i : Nat)
+    (h : ∀ (hs : sq < arrs.size), Rep (tables.getD sq 0) arrs[sq]) :
+    lookupFast arrs tables sq i = tget (tables.getD sq 0) i := by
+  unfold lookupFast
+  by_cases hs : sq < arrs.size
+  · rw [dif_pos hs]
+    by_cases hi : i < arrs[sq].size
+    · simp only [hi, dite_true]; exact h hs i hi
+    · simp only [hi, dite_false]
+  · rw [dif_neg hs]
+
+@[csimp] theorem rookAttacks_eq : @rookAttacks = @rookAttacksFast := by
+  funext sq occ
+  unfold rookAttacksFast rookAttacks rookLookup
+  rw [lookupFast_eq]
+  intro hs
+  have hs' : sq < 64 := by simpa [rookArrs] using hs
+  have e : rookTables.getD sq 0 = rookTableOf sq (rookMagics.getD sq 0) (rookBitsTab.getD sq 0) := by
+    simp [rookTables, hs']
+  have e2 : rookArrs[sq] = arrOf (rookSlow sq) (rookMask sq) (rookMagics.getD sq 0) (rookBitsTab.getD sq 0)
+      (2 ^ rookBitsTab.getD sq 0) 0 := by
+    simp [rookArrs]
+  rw [e, e2]; exact rep_arrOf _ _ _ _ _ _
+
+@[csimp] theorem bishopAttacks_eq : @bishopAttacks = @bishopAttacksFast := by
+  funext sq occ
+  unfold bishopAttacksFast bishopAttacks bishopLookup
+  rw [lookupFast_eq]
+  intro hs
+  have hs' : sq < 64 := by simpa [bishopArrs] using hs
+  have e : bishopTables.getD sq 0 = bishopTableOf sq (bishopMagics.getD sq 0) (bishopBitsTab.getD sq 0) := by
+    simp [bishopTables, hs']
+  have e2 : bishopArrs[sq] = arrOf (bishopSlow sq) (bishopMask sq) (bishopMagics.getD sq 0) (bishopBitsTab.getD sq 0)
+      (2 ^ bishopBitsTab.getD sq 0) 0 := by
+    simp [bishopArrs]
+  rw [e, e2]; exact rep_arrOf _ _ _ _ _ _
+
+def queenAttacksFast (sq : Nat) (occ : UInt64) : UInt64 := rookAttacks sq occ ||| bishopAttacks sq occ
+@[csimp] theorem queenAttacks_eq : @queenAttacks = @queenAttacksFast := rfl
+
+def attacksOfFast (c : Color) (p : Piece) (sq : Nat) (occ : UInt64) : UInt64 :=
+  match p with
+  | .none => 0
+  | .pawn => pawnAttacks c sq
+  | .knight => knightAttacks sq
+  | .bishop => bishopAttacks sq occ
+  | .rook => rookAttacks sq occ
+  | .queen => queenAttacks sq occ
+  | .king => kingAttacks sq
+@[csimp] theorem attacksOf_eq : @attacksOf = @attacksOfFast := rfl
+
+end Wee.Fast
